@@ -238,11 +238,13 @@ class Regex:
         if type(target) not in _RE_TYPES:
             raise MatchError(
                 "{0!r} not valid as a Regex target -- expected {1!r}", type(target), _RE_TYPES)
-        if type(self.pattern) in _RE_TYPES and type(target) is not type(self.pattern):
+        # (the pattern may have been given compiled: look at its source)
+        source = self.match_func.__self__.pattern
+        if isinstance(source, str) is not (type(target) is str):
             # (re raises TypeError for a str pattern on bytes and vice versa: no match)
             raise MatchError(
                 "{0!r} not valid as a target of the {1} pattern {2!r}",
-                type(target), type(self.pattern).__name__, self.pattern)
+                type(target), type(source).__name__, self.pattern)
         match = self.match_func(target)
         if not match:
             raise MatchError("target did not match pattern {0!r}", self.pattern)
